@@ -66,9 +66,9 @@ it breaks, expects exit 1 with VIOLATION lines and restores /repo (`tools/parsee
 in parallel lanes, each with private copies mounted over /repo and /verif); results in
 `seeded/RESULTS.json`.  Currently %d of %d are caught; of the other four, three are out of reach of the
 quick tier for the reason given in their row (11.5c) and one (C10-l) differs from HEAD only on a name
-the statement is ambiguous about and is deliberately not judged.  (The rows of ids f-n, and 73 of the 100 rows of ids a-e, were re-run
+the statement is ambiguous about and is deliberately not judged.  (The rows of ids f-n, and 74 of the 100 rows of ids a-e, were re-run
 with the checks as they stand at the end of the fifth session - every re-run a-e row is caught as
-before; the remaining 27 rows of ids a-e are from the session in which they were written.)
+before; the remaining 26 rows of ids a-e are from the session in which they were written.)
 
 | id | property | needs, in order to manifest | result |
 |---|---|---|---|
